@@ -60,6 +60,11 @@ def save_load_cores(E, s):
             key = tuple(slice(None, None, 2) for n in s['N'])
             if 'M' in s:
                 key = key + key
+        elif s['sliced'] == 'empty':
+            # empty selections in every mode: a regular object whose cores have no entries
+            key = tuple(slice(n, n) for n in s['N'])
+            if 'M' in s:
+                key = tuple(slice(0, 0) for m in s['M']) + tuple(slice(None) for n in s['N'])
         else:
             key = tuple([slice(0, None, 2)] + [slice(None)] * (len(s['N']) - 1))
             if 'M' in s:
@@ -142,6 +147,9 @@ def copies(E, s):
             y = x.to(tn.device('cpu'), dtype=dt)
         elif form == 'none_dtype':
             y = x.to(None, dt)
+        elif form == 'builtin':
+            # the python builtins complex / float are accepted as dtypes (complex128 / float64)
+            y = x.to(dtype={'complex128': complex, 'float64': float}[s['to']])
         else:
             raise ValueError(form)
     elif op == 'to_noargs':
